@@ -31,7 +31,9 @@ def main():
     if name.endswith('-4'):
         wt = '/tmp/seed4-' + prop
     if name.endswith('-5'):
-        wt = '/tmp/seed5-' + prop
+        wt = "/tmp/seed5-" + prop
+    if name.endswith("-6"):
+        wt = "/tmp/seed6-" + prop
     scratch = os.environ.get('VERIF_SEED_SCRATCH', '/tmp/verif-scratch-seed')
     so = os.path.join(wt, 'seed_out')
     meta = json.load(open(os.path.join(so, 'meta.json')))
